@@ -82,7 +82,8 @@ func vfC06Parse(e vfC06Entry) (p vfC06Parsed) {
 	}
 
 	p.kind = vfC06CNAME
-	p.target = e.Answer
+	// host names are case-insensitive, in answers as in patterns
+	p.target = strings.ToLower(e.Answer)
 
 	return p
 }
